@@ -46,6 +46,7 @@ ListCut(L, n)       == n <= Len(ls[L]) /\ ls' = [ls EXCEPT ![L] = SubSeq(ls[L], 
 EqualsExpectIn(vv, a, b) ==
   IF vv[a][1] # "Array" /\ vv[b][1] # "Array"
   THEN (IF vv[a][1] = "Null" \/ vv[b][1] = "Null" THEN (IF vv[a][1] = vv[b][1] THEN "yes" ELSE "no")
+        ELSE IF vv[a] = <<"Double", "NaN">> \/ vv[b] = <<"Double", "NaN">> THEN "no"        \* NaN equals nothing, itself included
         ELSE IF vv[a] = vv[b] THEN "yes" ELSE "no")
   ELSE IF vv[a][1] # vv[b][1] THEN "no"
   ELSE IF vv[a][2] = vv[b][2] THEN "yes"
